@@ -39,6 +39,22 @@ def boundary_constants(obj):
             mv = float(n.max_val)
             t = float(np.tanh(mv))
             consts.update([mv, -mv, t, -t])
+    # transformers of coupling / autoregressive layers live in a constructor closure, not in the pytree
+    import jax.numpy as jnp
+
+    def is_cond(n):
+        return isinstance(n, (B.Coupling, B.MaskedAutoregressive))
+
+    for n in jax.tree_util.tree_leaves(u, is_leaf=is_cond):
+        if is_cond(n):
+            try:
+                mlp = n.conditioner if isinstance(n, B.Coupling) else n.masked_autoregressive_mlp
+                out = mlp.layers[-1].bias.shape[-1]
+                dims = (n.dim - n.untransformed_dim) if isinstance(n, B.Coupling) else n.shape[-1]
+                tr = n.transformer_constructor(jnp.zeros(out // dims))
+                consts.update(boundary_constants(tr))
+            except Exception:
+                pass
     cs = sorted(consts)
     if len(cs) > MAX_CONSTS:
         idx = sorted(set(np.linspace(0, len(cs) - 1, MAX_CONSTS).round().astype(int).tolist()))
@@ -120,10 +136,33 @@ def pad_batch(X, mult=64):
 _BUNDLES = {}
 
 
+def install_tie_patch():
+    """Oracle-side only. JAX differentiates max/min (hence clip) with weight 0.5 when the two operands are
+    exactly tied. A spline value that rounds onto the interval end therefore gets HALF its slope from
+    autodiff, which is an artefact of the tie convention, not the derivative of the map. The Jacobian
+    oracle takes the one-sided value of the unclipped branch instead (weight 1 at a tie)."""
+    import jax._src.lax.lax as L
+
+    if getattr(L, "_mc_tie_patched", False):
+        return
+
+    def _balanced_cmp(x, y):
+        ge_mask = L.ge(x, y)
+        ones = L.full_like(ge_mask, 1, dtype=x.dtype)
+        zeros = L.full_like(ge_mask, 0, dtype=x.dtype)
+        return L.select(ge_mask, ones, zeros)
+
+    if not hasattr(L, "_balanced_cmp"):
+        raise RuntimeError("jax internals changed: cannot install the tie convention for the Jacobian oracle")
+    L._balanced_cmp = _balanced_cmp
+    L._mc_tie_patched = True
+
+
 def bundles():
     """filter_jit'ed evaluation bundles (compiled once per pytree structure / batch size)."""
     if _BUNDLES:
         return _BUNDLES
+    install_tie_patch()
     import equinox as eqx
     import jax
 
